@@ -86,7 +86,7 @@ def rand_lower(rng, n):
 
 def cases(run: Run):
     rng = run.rng
-    out = list(corpus(PID))
+    out = [dec(c) for c in corpus(PID)]  # stored as JSON: rationals as strings
     for _ in range(run.n(120, 1500)):
         n = rng.choice([1, 2, 3, 4, 5, 6, 6, 8])
         nobs = rng.randint(1, 4)
